@@ -197,6 +197,27 @@ class Builder:
         nodes = rnd.choice([int_nodes, dyadic_nodes])(rnd, 2, n)
         return curve_recipe(nodes, rnd.choice(CTOR_LAYOUTS)), n - 1, nodes
 
+    def op_newton_stress(self):
+        """calls whose Newton iterations are long: exact tangencies (linear convergence, then the double-root system)
+        and pairs of transversal crossings a tiny distance apart (the simple-root iteration needs many steps):
+        iteration counters and convergence flags are the kind of state that must not survive a call"""
+        rnd = self.rnd
+        parab = [[-1.0, 0.0, 1.0], [1.0, -1.0, 1.0]]                      # y = x^2 on [-1, 1]
+        if rnd.random() < 0.5:
+            c = rnd.choice([0.0, 0.0, 0.25, 0.0625])                       # tangent at x = +-sqrt(c)... c = 0: tangent at the vertex
+            if c == 0.0:
+                line = [[-1.0, 1.0], [0.0, 0.0]]
+            else:
+                x0 = c ** 0.5                                               # tangent line of y = x^2 at x0 (exact for c = 1/4, 1/16)
+                line = [[-1.0, 1.0], [-2 * x0 - c, 2 * x0 - c]]
+        else:
+            gap = 2.0 ** -rnd.choice([20, 24, 27, 30, 34])                 # two crossings about sqrt(gap) apart
+            line = [[-1.0, 1.0], [gap, gap]]
+        s, o = curve_recipe(parab), curve_recipe(line)
+        if rnd.random() < 0.5:
+            s, o = o, s
+        return self.add("Curve.intersect", s, [o], {})
+
     def op_curve_intersect(self):
         rnd = self.rnd
         r = rnd.random()
@@ -559,7 +580,7 @@ class Builder:
         rnd = self.rnd
         h = self.heavy
         table = [(self.op_curve_intersect, 22 * h), (self.op_all_intersections, 4 * h), (self.op_tri_intersect, 12 * h),
-                 (self.op_tri_raw, 3 * h), (self.op_tri_lattice, 30 * h), (self.op_curve_method, 18), (self.op_tri_method, 14), (self.op_polygon, 4),
+                 (self.op_tri_raw, 3 * h), (self.op_tri_lattice, 30 * h), (self.op_newton_stress, 10 * h), (self.op_curve_method, 18), (self.op_tri_method, 14), (self.op_polygon, 4),
                  (self.op_helper, 14), (self.op_repeat, 9 * h)]
         if self.speedup:
             table.append((self.op_state, 5))
